@@ -50,6 +50,8 @@ OPS = [
     ("time_course", {"rel": [-0.5, 0.0]}),
     ("time_course", {"rel": [0.75]}),
     ("time_course", {"rel": ["eps", 0.5]}),  # first point only just later than the time reached
+    ("time_course_int", {"as": "list"}),   # the next two whole numbers after the time reached, given as Python ints
+    ("time_course_int", {"as": "array"}),  # ... as an integer numpy array
     ("protocol", {"steps": 2}),
     ("protocol_time_course", {"points": [0.25, 1.0], "relative": False}),
     ("protocol_time_course", {"points": [0.25, 1.0], "relative": True}),
@@ -66,6 +68,12 @@ PROTOCOL = [(0.5, {"k": 2.0}), (1.0, {"k": 0.5})]
 # variable (every parameter update has something to re-resolve; a lean model has nothing)
 VARIANTS = {"auto": {"k": 1.0, "c": 2.0, "a": 0.0}, "timedep": {"k": 1.0, "c": 2.0, "a": 0.5}, "rich": {"k": 1.0, "c": 2.0, "a": 0.0}}
 X0 = 1.0
+
+
+def _int_points(T):
+    """The next two whole numbers strictly after T, as Python ints."""
+    first = math.floor(T + 1e-9) + 1
+    return [first, first + 1]
 
 
 def _off(T, r):
@@ -158,6 +166,9 @@ def apply_real(sim, op, T):
             sim.simulate(T + a["d"], steps=a["steps"])
         elif name == "time_course":
             sim.simulate_time_course(np.array([T + _off(T, r) for r in a["rel"]], dtype=float))
+        elif name == "time_course_int":
+            pts = _int_points(T)
+            sim.simulate_time_course(pts if a["as"] == "list" else np.array(pts, dtype=int))
         elif name == "protocol":
             sim.simulate_protocol(mxlpy.make_protocol(PROTOCOL), time_points_per_step=a["steps"])
         elif name == "protocol_time_course":
@@ -200,8 +211,8 @@ def apply_ref(ref: Reference, op):
         ref._segment(t_end)
         ref.requested.append(t_end)
         return "ok"
-    if name == "time_course":
-        pts = [T + _off(T, r) for r in a["rel"]]
+    if name in ("time_course", "time_course_int"):
+        pts = [T + _off(T, r) for r in a["rel"]] if name == "time_course" else [float(p) for p in _int_points(T)]
         if pts[-1] <= T:
             return "refuse"
         ref._segment(pts[-1])
@@ -383,7 +394,7 @@ def run_history(variant, hist):
                 return ("steady-state-wrong", f"steady state x={obs['x'][-1]} expected {x_ss}"), step, digest, ref, produced
         else:
             ref = ref_try
-        if OPS[oi][0] in ("simulate", "time_course", "protocol", "protocol_time_course", "steady_state"):
+        if OPS[oi][0] in ("simulate", "time_course", "time_course_int", "protocol", "protocol_time_course", "steady_state"):
             produced += 1
         bad = compare(ref, obs, op[0])
         if bad is not None:
